@@ -27,7 +27,7 @@ import z3
 from pyvc.framework import Harness
 from pyvc.interp import Spec, PyRaise, INLINE
 from pyvc.values import Obj, PyList, PyDict, Builtin, Opaque
-from pyvc.ops import make_dict, key_of
+from pyvc.ops import make_dict, key_of, dict_items as dict_items_
 from pyvc.repo import ClassInfo
 
 PROPERTY = "C04"
@@ -58,7 +58,7 @@ ASSUMPTIONS = [
 TRUSTED = ["mapper model of SQLAlchemy", "the composition of the two memo isomorphisms into the round-trip statement (argued)"]
 BOUNDED_ONLY_CLAUSES = ["mapper width: 5 columns / 4 relationships of every kind; collections of length 3 with a repeated element",
                         "whole round trips on random object graphs with sharing and cycles are measured by the bounded driver",
-                        "from_dao below an alternatively mapped parent (_build_base_kwargs_for_alternative_parent) is covered by the bounded driver only"]
+                        "whole graphs below an alternatively mapped parent (sharing through the rebuilt parent part) are additionally measured by the bounded driver"]
 
 SYNTH = '''
 from krrood.ormatic.dao import DataAccessObject, AlternativeMapping
@@ -116,6 +116,30 @@ class Columns(Opaque):
 
     def m_truth(self, vm):
         return bool(self.cols)
+
+
+class Rels(Opaque):
+    """sqlalchemy mapper.relationships (assumed): iterates the RelationshipProperty objects in order; keys() / `name in` by key"""
+
+    def __init__(self, rels):
+        super().__init__("relationship-collection")
+        self.rels = list(rels)
+
+    def m_iter(self, vm):
+        return PyList(list(self.rels))
+
+    def m_contains(self, vm, k):
+        return any(r is k or r.fields.get("key") == k for r in self.rels)
+
+    def m_truth(self, vm):
+        return bool(self.rels)
+
+    def m_getattr(self, vm, name):
+        if name == "keys":
+            return Builtin("keys", lambda it, fr, a, k: PyList([r.fields.get("key") for r in self.rels]))
+        if name == "values":
+            return Builtin("values", lambda it, fr, a, k: PyList(list(self.rels)))
+        vm.raise_("AttributeError", name)
 
 
 class DW:
@@ -390,16 +414,21 @@ def h_to_dao_below_alternative_parent():
         pcols = [W.col("database_id", pk=True), W.col("p1")]
         prels = [W.rel("prel", "MANYTOONE", False)]
         ccols = pcols + [W.col("c1"), W.col("polymorphic_type")]
-        crels = prels + [W.rel("crel", "ONETOMANY", True)]
+        # the alternatively mapped class may be a GRANDPARENT: a class in between declares a relationship of its own (irel); the
+        # object's own part is everything its DAO has beyond the alternatively mapped ancestor's DAO
+        irels = prels + [W.rel("irel", "MANYTOONE", False)]
+        crels = irels + [W.rel("crel", "ONETOMANY", True)]
         attrs = [vm.alloc(vm.ext("object"), {"columns": PyList([c]), "key": c.fields["name"]}, tag="column-attr") for c in ccols]
-        pmapper = vm.alloc(vm.ext("object"), {"columns": Columns(pcols), "relationships": PyList(prels)}, tag="parent-mapper")
-        cmapper = vm.alloc(vm.ext("object"), {"columns": Columns(ccols), "relationships": PyList(crels), "column_attrs": PyList(attrs)}, tag="child-mapper")
+        pmapper = vm.alloc(vm.ext("object"), {"columns": Columns(pcols), "relationships": Rels(prels), "inherits": None}, tag="parent-mapper")
+        imapper = vm.alloc(vm.ext("object"), {"columns": Columns(pcols), "relationships": Rels(irels), "inherits": pmapper}, tag="intermediate-mapper")
+        cmapper = vm.alloc(vm.ext("object"), {"columns": Columns(ccols), "relationships": Rels(crels), "column_attrs": PyList(attrs), "inherits": imapper}, tag="child-mapper")
         ParentDAO = W.ChildDAO            # stands for the DAO of the alternatively mapped parent
         insp = vm.loader.externals[("sqlalchemy", "inspection")]
         insp.fields["inspect"] = Builtin("inspect", lambda it, fr, a, k: pmapper if a[0] is ParentDAO else cmapper)
         vm.spec.stubs["HasGeneric.original_class"] = lambda it, a, k: W.Mapped if a[0] is ParentDAO else W.Thing
         k1, k2 = W.domain("kid-of-mapping"), W.domain("kid-of-object")
-        obj = W.domain("root", p1="object-p1", c1="object-c1", prel=k2, crel=PyList([k2]))
+        k3 = W.domain("kid-of-the-intermediate-class")
+        obj = W.domain("root", p1="object-p1", c1="object-c1", prel=k2, irel=k3, crel=PyList([k2]))
         mapping = vm.alloc(W.Mapped, {"p1": "mapped-p1", "prel": k1}, tag="mapping-of-root")
         vm.spec.stubs["AlternativeMapping.create_instance"] = lambda it, a, k: mapping
         nested_to_dao(W, W.ThingDAO)[0] = 1            # every DataAccessObject.to_dao call below is answered by the contract
@@ -417,8 +446,49 @@ def h_to_dao_below_alternative_parent():
         ctx.check("DataAccessObject.to_dao_if_subclass_of_alternative_mapping::inherited-relationships-come-from-the-mapping-own-relationships-from-the-object",
                   z3.BoolVal(d1 is not None and dao.fields.get("prel") is d1 and isinstance(crel, PyList) and len(crel.items) == 1 and crel.items[0] is d2 and d2 is not None),
                   detail=f"{dao.fields.get('prel')!r} {crel!r}")
+        d3 = memo.vals.get(key_of(1000000 + k3.oid))
+        ctx.check("DataAccessObject.to_dao_if_subclass_of_alternative_mapping::relationships-declared-between-the-mapped-ancestor-and-the-objects-class-come-from-the-object",
+                  z3.BoolVal(d3 is not None and dao.fields.get("irel") is d3), detail=f"irel = {dao.fields.get('irel')!r}")
         ctx.check("DataAccessObject.to_dao_if_subclass_of_alternative_mapping::nested-conversions-share-the-state", z3.BoolVal(all(e[2] is st for e in W.events)), detail=repr(W.events))
     return Harness("to-dao-below-alternative-parent", run, spec=Spec())
+
+
+def h_from_dao_below_alternative_parent():
+    """_build_base_kwargs_for_alternative_parent: the parent part of an inherited DAO is rebuilt through ONE nested from_dao on a fresh
+    DAO of the alternatively mapped base that carries the data columns and relationships of this DAO -- in the SAME conversion state
+    (objects first reached through the parent part are memoised for everybody); arguments the DAO lacks are read off the result"""
+    def run(vm):
+        ctx = vm.ctx
+        W = DW(vm)
+        st = W.state("FromDAOState")
+        pcols = [W.col("database_id", pk=True), W.col("p1"), W.col("polymorphic_type")]
+        prels = [W.rel("holder", "MANYTOONE", False)]
+        pmapper = vm.alloc(vm.ext("object"), {"columns": Columns(pcols), "relationships": Rels(prels)}, tag="parent-mapper")
+        insp = vm.loader.externals[("sqlalchemy", "inspection")]
+        insp.fields["inspect"] = Builtin("inspect", lambda it, fr, a, k: pmapper)
+        vm.spec.stubs["DataAccessObject.uses_alternative_mapping"] = lambda it, a, k: True
+        calls = []
+        rebuilt = W.domain("rebuilt-parent-part", owner="the-owner", p1="parent-p1")
+
+        def nested_from_dao(it, a, k):
+            calls.append((a[0], k.get("state", a[1] if len(a) > 1 else None)))
+            return rebuilt
+        vm.spec.stubs["DataAccessObject.from_dao"] = nested_from_dao
+        shared = vm.alloc(W.ChildDAO, {}, tag="dao-of-a-shared-object")
+        me = vm.alloc(W.SubDAO, {"database_id": 7, "p1": "p1-value", "polymorphic_type": "sub", "holder": shared, "own": 3}, tag="inherited-dao")
+        kw = vm.call_method(me, "_build_base_kwargs_for_alternative_parent", PyList(["owner", "own", "p1", "missing"]), st)
+        ok_call = (len(calls) == 1 and isinstance(calls[0][0], Obj) and calls[0][0].cls is W.ChildDAO and calls[0][0] is not me and calls[0][1] is st)
+        ctx.check("DataAccessObject._build_base_kwargs_for_alternative_parent::one-nested-conversion-of-a-fresh-parent-dao-in-the-same-state", z3.BoolVal(bool(ok_call)),
+                  detail=f"{calls!r} (state given: {st!r})")
+        if ok_call:
+            p = calls[0][0]
+            ctx.check("DataAccessObject._build_base_kwargs_for_alternative_parent::the-parent-dao-carries-this-daos-data-columns-and-relationships",
+                      z3.BoolVal(p.fields.get("p1") == "p1-value" and p.fields.get("holder") is shared and "database_id" not in p.fields and "polymorphic_type" not in p.fields),
+                      detail=repr(p.fields))
+        got = dict(dict_items_(kw)) if isinstance(kw, PyDict) else None
+        ctx.check("DataAccessObject._build_base_kwargs_for_alternative_parent::arguments-this-dao-lacks-are-read-off-the-rebuilt-parent-part",
+                  z3.BoolVal(got == {"owner": "the-owner"}), detail=repr(got))
+    return Harness("from-dao-below-alternative-parent", run, spec=Spec())
 
 
 def h_states():
@@ -447,6 +517,27 @@ def h_states():
         ys = target.fields["ys"]
         ctx.check("FromDAOState.apply_circular_fixes::references-are-patched-from-the-memo-in-order",
                   z3.BoolVal(target.fields["x"] is r and isinstance(ys, PyList) and [id(v) for v in ys.items] == [id(r3), id(r), id(r)]))
+        # deferred fixes: EVERY (holder, attribute) that was handed a placeholder for an object still under construction is patched
+        # when that object is finished -- several holders under the same attribute name, one holder under several attributes
+        fs2 = W.state("FromDAOState")
+        d4 = vm.alloc(W.ChildDAO, {}, tag="dao-under-construction")
+        done = vm.call_method(fs2, "allocate_and_memoize", d4, W.Thing)
+        h1, h2 = W.domain("holder-1", tags=None, main=None), W.domain("holder-2", tags=None)
+        for holder, key, value in ((h1, "tags", PyList([d4])), (h2, "tags", PyList([d4, d4])), (h1, "main", d4)):
+            holder.fields[key] = value
+            vm.call_method(fs2, "_defer_fix_if_in_progress", d4, holder, key, value)
+        other_dao = vm.alloc(W.ChildDAO, {}, tag="a-finished-dao")
+        vm.call_method(fs2, "_defer_fix_if_in_progress", other_dao, h2, "tags", PyList([other_dao]))       # not in progress: nothing to remember
+        from pyvc.ops import dict_del
+        dict_del(fs2.fields["in_progress"], 1000000 + d4.oid)          # the object is finished
+        vm.call_method(fs2, "apply_deferred_fixes", d4)
+        t1, t2 = h1.fields["tags"], h2.fields["tags"]
+        ok = (isinstance(t1, PyList) and [id(v) for v in t1.items] == [id(done)] and isinstance(t2, PyList) and [id(v) for v in t2.items] == [id(done), id(done)]
+              and h1.fields["main"] is done)
+        ctx.check("FromDAOState.apply_deferred_fixes::every-holder-and-attribute-that-got-a-placeholder-is-patched", z3.BoolVal(bool(ok)),
+                  detail=f"holder-1.tags={t1!r} holder-1.main={h1.fields['main']!r} holder-2.tags={t2!r}")
+        left = fs2.fields["deferred_fixes"]
+        ctx.check("FromDAOState.apply_deferred_fixes::nothing-stays-pending-for-the-finished-object", z3.BoolVal(key_of(1000000 + d4.oid) not in left.vals), detail=repr(left))
     return Harness("states", run, spec=Spec())
 
 
@@ -534,4 +625,4 @@ def h_function_mapping():
 
 
 def harnesses():
-    return [h_function_mapping(), h_to_dao(), h_top_level_to_dao(), h_alternative_to_dao(), h_to_dao_below_alternative_parent(), h_from_dao(), h_from_dao_alternative(), h_states(), h_is_data_column(), h_canary()]
+    return [h_function_mapping(), h_to_dao(), h_top_level_to_dao(), h_alternative_to_dao(), h_to_dao_below_alternative_parent(), h_from_dao(), h_from_dao_alternative(), h_from_dao_below_alternative_parent(), h_states(), h_is_data_column(), h_canary()]
